@@ -190,6 +190,7 @@ type FuncVerifier struct {
 	nondet         []string // sources of nondeterminism met while executing (for `functional`)
 	panicStates    []panicExit // exceptional exits met while executing (see forkPanic)
 	inlineStack    []string    // keys of /repo functions currently being executed inline
+	keySorts       map[string]Sort // sort of every heap key ever read or written (frame obligations for keys that were only havocked)
 	curState       *State
 	localOnly      map[types.Object]bool
 	allocTerms     map[string]bool
@@ -409,6 +410,10 @@ func (fv *FuncVerifier) seqElemInv(v Term, t types.Type) Term {
 // ---- heap ----
 
 func (fv *FuncVerifier) heapGet(st *State, key string, sort Sort) Term {
+	if fv.keySorts == nil {
+		fv.keySorts = map[string]Sort{}
+	}
+	fv.keySorts[key] = sort
 	if t, ok := st.heap[key]; ok {
 		return t
 	}
